@@ -32,6 +32,11 @@ pub struct Case {
   pub how: CloseHow,
   pub reader_delay_ms: u8,
   pub rt: Rt,
+  /// the peer does not read at all until close/term has returned, and the sender floods until a
+  /// send fails: the sending session is left holding framed data it cannot write (only with
+  /// LINGER 0 or a short bounded LINGER, over tcp/ipc)
+  #[serde(default)]
+  pub stalled_reader: bool,
 }
 
 fn case_strategy() -> impl Strategy<Value = Case> + Clone {
@@ -45,9 +50,9 @@ fn case_strategy() -> impl Strategy<Value = Case> + Clone {
     prop::sample::select(vec![4u16, 64, 1000]),
     prop::sample::select(vec![CloseHow::Close, CloseHow::Term, CloseHow::CloseThenTerm]),
     prop::sample::select(vec![0u8, 0, 2, 20]),
-    prop::sample::select(vec![Rt::Current, Rt::Multi(2)]),
+    (prop::sample::select(vec![Rt::Current, Rt::Multi(2)]), prop::bool::weighted(0.4)),
   )
-    .prop_map(|(transport, (a, b), linger, count, frame_kib, frames, sndhwm, how, reader_delay_ms, rt)| Case {
+    .prop_map(|(transport, (a, b), linger, count, frame_kib, frames, sndhwm, how, reader_delay_ms, (rt, stalled))| Case {
       transport,
       pair: (a.into(), b.into()),
       linger,
@@ -58,6 +63,7 @@ fn case_strategy() -> impl Strategy<Value = Case> + Clone {
       how,
       reader_delay_ms,
       rt,
+      stalled_reader: stalled && transport != Transport::Inproc && (0..=500).contains(&linger),
     })
 }
 
@@ -83,7 +89,7 @@ async fn body(c: &Case) -> L2 {
     Ok(s) => s,
     Err(e) => return L2::Inconclusive(e.to_string()),
   };
-  let sopts = vec![stack::i32opt(opt::LINGER, c.linger), stack::i32opt(opt::SNDHWM, c.sndhwm as i32), stack::i32opt(opt::SNDTIMEO, 5000)];
+  let sopts = vec![stack::i32opt(opt::LINGER, c.linger), stack::i32opt(opt::SNDHWM, c.sndhwm as i32), stack::i32opt(opt::SNDTIMEO, if c.stalled_reader { 300 } else { 5000 })];
   if let Err(e) = stack::set_opts(&sender, &sopts).await {
     return L2::Inconclusive(e);
   }
@@ -103,8 +109,13 @@ async fn body(c: &Case) -> L2 {
   // reader
   let rcv = receiver.clone();
   let delay = c.reader_delay_ms;
+  let go = std::sync::Arc::new(tokio::sync::Notify::new());
+  let (go2, stalled) = (go.clone(), c.stalled_reader);
   let reader = tokio::spawn(async move {
     let mut got: Vec<Vec<Vec<u8>>> = Vec::new();
+    if stalled {
+      go2.notified().await;
+    }
     loop {
       match rcv.recv_multipart().await {
         Ok(frames) => {
@@ -121,7 +132,8 @@ async fn body(c: &Case) -> L2 {
   // burst
   let sizes: Vec<usize> = (0..c.frames).map(|_| c.frame_kib as usize * 1024).collect();
   let mut accepted = 0u32;
-  for i in 0..c.count {
+  let sizes = if c.stalled_reader { vec![16 * 1024; c.frames.max(1) as usize] } else { sizes };
+  for i in 0..(if c.stalled_reader { 6000 } else { c.count }) {
     match sender.send_multipart(acc_message(1, i as u32, &sizes)).await {
       Ok(()) => accepted += 1,
       Err(_) => break,
@@ -147,11 +159,13 @@ async fn body(c: &Case) -> L2 {
   })
   .await;
   let took = t.elapsed();
+  go.notify_one();
   let v = |check: &str, d: String| {
     L2::Violation(
       Violation::new(check, d)
         .with("layer", "stack")
         .with("transport", c.transport.name())
+        .with("stalled_reader", c.stalled_reader)
         .with("linger", if c.linger < 0 { "infinite".to_string() } else if c.linger == 0 { "zero".to_string() } else if c.linger >= 10_000 { "ample".to_string() } else { "short".to_string() }),
     )
   };
@@ -222,7 +236,7 @@ async fn body(c: &Case) -> L2 {
 }
 
 pub fn run(run: &mut Run) {
-  run.rule = "cases = (tcp|ipc|inproc) x (PUSH->PULL | DEALER->DEALER) x LINGER in {-1,0,1,50,500,10000} x burst of 1..600 messages of 1..3 frames of {0,1,4,64,256} KiB x SNDHWM in {4,64,1000} x close() | term() | close()+term() immediately after the burst x reader pacing 0/2/20 ms per message x runtime. Receiver reconstruction from accounting frames (crc, seq, frame index/count). Non-trivial = more than one message was accepted before the close. Distinct = hash of the case".into();
+  run.rule = "cases = (tcp|ipc|inproc) x (PUSH->PULL | DEALER->DEALER) x LINGER in {-1,0,1,50,500,10000} x burst of 1..600 messages of 1..3 frames of {0,1,4,64,256} KiB x SNDHWM in {4,64,1000} x close() | term() | close()+term() immediately after the burst x reader pacing 0/2/20 ms per message x runtime; 40% of the tcp/ipc cases with LINGER 0..500 use a peer that does not read until close/term has returned while the sender floods until a send fails. Receiver reconstruction from accounting frames (crc, seq, frame index/count). Non-trivial = more than one message was accepted before the close. Distinct = hash of the case".into();
   run.assumptions = vec![
     "the receiver stops after 1.5 s without traffic, after the sender's context has terminated (nothing more can be in flight but kernel buffers)".into(),
     "'ample' LINGER is 10 s for a transfer that takes well under a second with a reading peer".into(),
@@ -242,6 +256,7 @@ pub fn run(run: &mut Run) {
       _ => "linger_short",
     });
     rec.label_if(c.frame_kib >= 64, "beyond_kernel_buffers");
+    rec.label_if(c.stalled_reader, "peer_not_reading_until_closed");
     let r = run_l2(c.rt, Duration::from_secs(150), body(c));
     l2_result(run, "linger", r)
   });
